@@ -68,7 +68,8 @@ type event struct {
 	Explicit int    `json:"explicit,omitempty"` // hs: ordinal of the session named by SessionID (0 = none, 99 = unknown id)
 	Via      string `json:"via,omitempty"`      // peername | stream | both
 	Dt       int    `json:"dt,omitempty"`
-	K        int    `json:"n,omitempty"` // ordinal of a session (inval, lne); 99 = an id never issued
+	K        int    `json:"n,omitempty"`     // ordinal of a session (inval, lne); 99 = an id never issued
+	Claim    int    `json:"claim,omitempty"` // import: number of the claim (1, 2) imported through ImportClaimSession; 0 = Store + MapCommand of ordinal K
 }
 
 type history struct {
@@ -183,6 +184,7 @@ type world struct {
 	addrName []string // addresses as used by the client for server i
 	alias    map[string]string
 	keys     map[string][3]int
+	claims   map[int]string // claim number -> secret claim id (minted once per history)
 	// d3: called by the silent server once it has consumed the request
 	onConsumed func()
 }
@@ -193,6 +195,23 @@ func newWorld(h history) *world {
 	w.addrName = append([]string(nil), addrs...)
 	security.GetSessionCache().Clear()
 	return w
+}
+
+// claimID mints claim number k once (into a scratch cache: only the claim id is used) and returns it
+func (w *world) claimID(k int) string {
+	if w.claims == nil {
+		w.claims = map[int]string{}
+	}
+	if c, ok := w.claims[k]; ok {
+		return c
+	}
+	m, err := security.MintClaimSession(security.NewSessionCache(), security.MintClaimOptions{
+		Sinful: fmt.Sprintf("<10.8.8.%d:9618?sock=startd_77_%d>", k, k), Birthdate: 1700000000, SequenceNum: k})
+	if err != nil {
+		panic(err)
+	}
+	w.claims[k] = m.ClaimID()
+	return w.claims[k]
 }
 
 func (w *world) ord(id string) int {
@@ -984,25 +1003,41 @@ func runHistory(h history) runOut {
 			}
 			term = fmt.Sprintf("XInvalidateExpired z%d", n)
 		case "import":
-			// a previously used session id is registered again (as a claim re-import does: Store, then
-			// MapCommand) under another tag / address / command, once the old entry is gone
-			if e.K < 1 || e.K > len(w.ids) {
-				continue
-			}
-			id := w.idOfOrd(e.K)
-			if _, stored := w.cache.VerifSessionKeys()[id]; stored {
-				continue
-			}
+			// a session id is registered again under another tag / address / command - whether the
+			// earlier entry is gone or STILL STORED: by Store + MapCommand (Claim == 0, a previously
+			// issued id), or through the real ImportClaimSession of claim number Claim (the same
+			// claim imported again with another PeerAddr / Tag / command)
 			addr, cmdStr := w.addrName[e.Addr], fmt.Sprint(e.Cmd)
-			en := security.NewSessionEntry(id, addr, &security.KeyInfo{Data: bytes.Repeat([]byte{0x5a}, 32), Protocol: "AES"}, nil,
-				time.Now().Add(sessDuration*time.Second), sessLease*time.Second, e.Tag)
-			en.SetInherited(true)
-			w.cache.Store(en)
-			w.cache.MapCommand(e.Tag, addr, cmdStr, id)
+			var id string
+			lease := sessLease
+			if e.Claim > 0 {
+				sid, err := security.ImportClaimSession(w.cache, w.claimID(e.Claim), security.ClaimSessionOptions{
+					PeerAddr: addr, Tag: e.Tag, Duration: sessDuration * time.Second, ExtraValidCommands: []int{e.Cmd}})
+				if err != nil {
+					fail("import-failed", "%s: ImportClaimSession: %v", what, err)
+					continue
+				}
+				id, lease = sid, 0
+				w.ord(id)
+				out.counts["import-claim"]++
+			} else {
+				if e.K < 1 || e.K > len(w.ids) {
+					continue
+				}
+				id = w.idOfOrd(e.K)
+				en := security.NewSessionEntry(id, addr, &security.KeyInfo{Data: bytes.Repeat([]byte{0x5a}, 32), Protocol: "AES"}, nil,
+					time.Now().Add(sessDuration*time.Second), sessLease*time.Second, e.Tag)
+				en.SetInherited(true)
+				w.cache.Store(en)
+				w.cache.MapCommand(e.Tag, addr, cmdStr, id)
+			}
+			if old := ref.sess[id]; old != nil && old.present {
+				out.counts["import-over-stored-entry"]++
+			}
 			nrs := &refSess{id: id, tag: e.Tag, addr: addr, cmds: map[string]bool{cmdStr: true}, exp: ref.now + sessDuration, lease: sessLease, present: true}
 			for tr, v := range ref.routes {
-				if v == id { // every earlier way the id stopped being stored removed its routes
-					fail("stale-route-in-reference", "%s: internal: the reference map still routes %v to %s", what, tr, w.sidName(id))
+				if v == id { // the entry that is replaced takes its routes with it
+					delete(ref.routes, tr)
 				}
 			}
 			ref.sess[id] = nrs
@@ -1014,7 +1049,7 @@ func runHistory(h history) runOut {
 				}
 			}
 			out.counts["import-previously-used-id"]++
-			term = fmt.Sprintf("XImport n%d n%d n%d n%d", w.sidN(id), idx(tags, e.Tag), e.Addr, cmdIdx(e.Cmd))
+			term = fmt.Sprintf("XImport n%d n%d n%d n%d z%d", w.sidN(id), idx(tags, e.Tag), e.Addr, cmdIdx(e.Cmd), lease)
 		case "lne":
 			id := w.idOfOrd(e.K)
 			_, found := w.cache.LookupNonExpired(id)
@@ -1122,7 +1157,11 @@ func randEvent(c *core.Ctx, pos int, prev []event) event {
 	case x < 89:
 		return event{Kind: "invalexp"}
 	case x < 94:
-		return event{Kind: "import", K: 1 + r.Intn(2), Tag: tags[r.Intn(3)], Addr: r.Intn(2), Cmd: cmds[r.Intn(3)]}
+		e := event{Kind: "import", K: 1 + r.Intn(2), Tag: tags[r.Intn(3)], Addr: r.Intn(2), Cmd: cmds[r.Intn(3)]}
+		if r.Intn(2) == 0 {
+			e.Claim = 1 + r.Intn(2)
+		}
+		return e
 	default:
 		return event{Kind: "lne", K: 1 + r.Intn(3)}
 	}
@@ -1234,6 +1273,11 @@ func gen(c *core.Ctx) error {
 		{H("tagA", 0, 421), {Kind: "tick", Dt: 3000}, {Kind: "lne", K: 1}, {Kind: "invalexp"}, {Kind: "import", K: 1, Tag: "tagB", Addr: 1, Cmd: 9}, H("tagA", 0, 421), H("tagB", 1, 9), H("tagA", 0, 60007)},
 		{H("", 0, 421), {Kind: "tick", Dt: 3000}, {Kind: "hs", Tag: "tagB", Addr: 1, Cmd: 9, Mode: "ok", Via: "peername", Explicit: 1}, {Kind: "invalexp"}, {Kind: "import", K: 1, Tag: "tagA", Addr: 0, Cmd: 60007}, H("", 0, 421), H("", 0, 60007), H("tagA", 0, 60007)},
 		{H("tagA", 0, 421), H("tagB", 1, 60007), {Kind: "tick", Dt: 3000}, {Kind: "lne", K: 1}, {Kind: "invalexp"}, {Kind: "invalexp"}, {Kind: "import", K: 1, Tag: "", Addr: 0, Cmd: 421}, H("tagA", 0, 60007), H("", 0, 421)},
+		// an id that is STILL STORED is registered again under another triple; handshakes for the old and the new triple
+		{H("tagA", 0, 421), {Kind: "import", K: 1, Tag: "tagB", Addr: 1, Cmd: 9}, H("tagA", 0, 421), H("tagA", 0, 60007), H("tagB", 1, 9)},
+		{{Kind: "import", Claim: 1, Tag: "tagA", Addr: 0, Cmd: 421}, {Kind: "import", Claim: 1, Tag: "", Addr: 1, Cmd: 9}, H("tagA", 0, 421), H("", 1, 9), {Kind: "import", Claim: 1, Tag: "", Addr: 1, Cmd: 60007}, H("", 1, 9), H("", 1, 60007)},
+		{{Kind: "import", Claim: 1, Tag: "tagB", Addr: 0, Cmd: 421}, {Kind: "import", Claim: 2, Tag: "tagB", Addr: 0, Cmd: 421}, {Kind: "import", Claim: 1, Tag: "tagB", Addr: 1, Cmd: 421}, H("tagB", 0, 421), H("tagB", 1, 421)},
+		{H("", 0, 9), {Kind: "tick", Dt: 1500}, {Kind: "import", K: 1, Tag: "", Addr: 0, Cmd: 60007}, {Kind: "tick", Dt: 1500}, H("", 0, 421), H("", 0, 60007)},
 		// the same without a sweep in between (fixed by c4d0e8b: LookupNonExpired removes the mappings itself)
 		{H("tagA", 0, 421), {Kind: "tick", Dt: 3000}, {Kind: "lne", K: 1}, {Kind: "import", K: 1, Tag: "tagB", Addr: 1, Cmd: 9}, H("tagA", 0, 421), H("tagB", 1, 9)},
 		{H("", 1, 9), {Kind: "tick", Dt: 1500}, H("", 1, 9), {Kind: "tick", Dt: 500}, H("", 1, 421), {Kind: "tick", Dt: 500}, H("", 1, 9)},
